@@ -2,6 +2,7 @@ package main
 
 import (
 	"fmt"
+	"go/token"
 	"go/types"
 	"sort"
 	"strings"
@@ -17,12 +18,13 @@ func init() {
 			"R2 each carbon route's Dispatch performs only non-blocking work plus the rendezvous send to that loop; " +
 			"R3 connecting (net.Dial*) is never reachable synchronously from the loop, only through `go`; " +
 			"R4 every line received by the loop ends in exactly one disposition (queued to the connection, counted slow_conn, queued to the spool, counted slow_spool, counted conn_down_no_spool), likewise for unspooled lines, and the connection writer counts a line as sent exactly when Write succeeded.",
-		NotDecided: "a wall-clock bound; OS socket behaviour; that the counters equal what the endpoint did not receive (needs C05's undecided buffer arithmetic).",
+		NotDecided:  "a wall-clock bound; OS socket behaviour; that the counters equal what the endpoint did not receive (needs C05's undecided buffer arithmetic).",
 		Assumptions: []string{"logging (logrus) and go-metrics updates do not block", "a rendezvous send to a select loop that has no blocking operation in its bodies completes as soon as the loop comes round"},
 		Rules: []RuleDef{
 			{ID: "C06.R1", Min: 8, Doc: "relay loop never blocks: may-block analysis of the pre-select part and of every select case body of (*Destination).relay, through all synchronously called module functions", Run: c06r1},
 			{ID: "C06.R2", Min: 3, Doc: "route hand-off: may-block analysis of SendAllMatch/SendFirstMatch/ConsistentHashing.Dispatch with the send on Destination.In accepted", Run: c06r2},
 			{ID: "C06.R3", Min: 1, Doc: "dialling is never inline: net.Dial* is unreachable from relay over call/defer edges", Run: c06r3},
+			{ID: "C06.R5", Min: 1, Doc: "fresh liveness: on every path from the relay loop's header to its select on which a connection is held (conn != nil), conn.isAlive() was evaluated in that iteration — the conn != nil decision of the `<-dest.In` case (write vs. count as conn-down drop) is never made on a connection that died before the iteration", Run: c06r5},
 			{ID: "C06.R4", Min: 3, Doc: "disposition accounting: path enumeration of the `<-dest.In` and `<-toUnspool` case bodies and of HandleData's `<-c.In` case", Run: c06r4},
 		},
 	})
@@ -104,7 +106,7 @@ func keepCleanStopsPromptly(c *Check, a *blockAnalysis) bool {
 		}
 		cases := selectCases(sel)
 		for i, st := range sel.States {
-			if st.Dir == types.RecvOnly && isFieldLoad(st.Chan, closedF) {
+			if sel.Blocking && st.Dir == types.RecvOnly && isFieldLoad(st.Chan, closedF) {
 				// body returns
 				if b := cases[i]; b != nil {
 					if _, isRet := b.Instrs[len(b.Instrs)-1].(*ssa.Return); isRet {
@@ -131,8 +133,78 @@ func keepCleanStopsPromptly(c *Check, a *blockAnalysis) bool {
 				}
 			}
 		}
+		// the select is the goroutine's only waiting point: nothing else in keepClean may block
+		// (e.g. a receive from the ticker in front of a non-blocking look at `closed`)
+		if ops := a.opsIn(kc, kc.Blocks, func(x ssa.Instruction) bool { return x == in }); len(ops) > 0 {
+			ok = false
+		}
 	})
 	return ok && closes
+}
+
+func c06r5(c *Check) {
+	m := buildRelayModel(c)
+	nIsAlive := "(*" + modPath + "/destination.Conn).isAlive"
+	selBlock := m.sel.Block()
+	isConn := func(v ssa.Value) bool {
+		pt, ok := v.Type().(*types.Pointer)
+		if !ok {
+			return false
+		}
+		n, ok := pt.Elem().(*types.Named)
+		return ok && n.Obj().Name() == "Conn" && n.Obj().Pkg() != nil && n.Obj().Pkg().Path() == modPath+"/destination"
+	}
+	cfg := &PathCfg{
+		Stop: func(b *ssa.BasicBlock) bool { return b == selBlock },
+		Branch: func(ifi *ssa.If, cond ssa.Value, taken bool) []string {
+			cnd, neg := negStrip(cond)
+			if call, ok := cnd.(*ssa.Call); ok && calleeName(call.Common()) == nIsAlive {
+				return []string{"isAlive"}
+			}
+			if bo, ok := cnd.(*ssa.BinOp); ok && (bo.Op == token.NEQ || bo.Op == token.EQL) {
+				var x ssa.Value
+				if k, ok := bo.Y.(*ssa.Const); ok && k.IsNil() {
+					x = bo.X
+				} else if k, ok := bo.X.(*ssa.Const); ok && k.IsNil() {
+					x = bo.Y
+				}
+				if x != nil && isConn(x) {
+					nonNil := (bo.Op == token.NEQ) == (taken != neg)
+					if nonNil {
+						return []string{"conn:held"}
+					}
+					return []string{"conn:nil"}
+				}
+			}
+			return nil
+		},
+	}
+	paths, trunc := EnumPaths(m.fn, m.loop.Header, cfg)
+	bad := ""
+	nHeld := 0
+	for i := range paths {
+		pa := &paths[i]
+		first := ""
+		for _, e := range pa.Events {
+			if strings.HasPrefix(e.Class, "conn:") {
+				first = e.Class
+				break
+			}
+		}
+		if first == "conn:held" {
+			nHeld++
+			if !pa.Has("isAlive") {
+				bad = "a held connection reaches the select without conn.isAlive() having been consulted in this iteration: lines received while the endpoint is down are queued on the dead connection and disappear uncounted instead of being counted as conn-down drops: " + pa.String()
+			}
+		}
+	}
+	key := "destination.relay liveness checked before every select"
+	pos := c.P.InstrPos(m.loop.Header.Instrs[0])
+	if trunc || nHeld == 0 {
+		c.Undecided(key, pos, "no loop-head path with a held connection was found (the rule's model of relay no longer matches)")
+		return
+	}
+	c.Judge(bad == "", key, pos, fmt.Sprintf("%d loop-head paths, %d with a held connection, all through isAlive()", len(paths), nHeld), bad)
 }
 
 func c06r1(c *Check) {
